@@ -106,7 +106,36 @@ def _config(ctx, idx):
                              key="onpolicy:gae")
 
 
+def check_filter_cond(ctx):
+    """lerax.utils.filter_cond (used for the env / policy-state resets of step) vs the Lean model"""
+    from lerax.utils import filter_cond
+    rng = ctx.rng
+    for i in range(ctx.budget(12, 60)):
+        n = int(rng.integers(1, 6))
+        kinds = rng.random(n) < 0.6                       # array leaf?
+        names = [str(rng.choice(["relu", "tanh", "id"])) for _ in range(n)]
+        t = [float(rng.integers(-9, 10)) if kinds[j] else names[j] for j in range(n)]
+        f = [float(rng.integers(-9, 10)) if kinds[j] else names[j] for j in range(n)]
+        if rng.random() < 0.3 and (~kinds).any():
+            j = int(np.argmax(~kinds)); f[j] = f[j] + "_other"      # static leaves differ
+        pred = bool(rng.random() < 0.5)
+        tt = [jnp.asarray(x) if isinstance(x, float) else x for x in t]
+        ff = [jnp.asarray(x) if isinstance(x, float) else x for x in f]
+        try:
+            out = jax.jit(lambda p: filter_cond(p, lambda: tt, lambda: ff))(jnp.asarray(pred))
+            impl = [float(x) if not isinstance(x, str) else x for x in out]
+        except ValueError:
+            impl = "ValueError"
+        m = ctx.drv.call("filter_cond", pred=pred, **{"true": t, "false": f})
+        case = {"kind": "filter_cond", "pred": pred, "true": t, "false": f, "impl": impl, "model": m}
+        ctx.case(case, True, sample=case if i == 0 else None)
+        ctx.count("filter_cond:" + ("raises" if impl == "ValueError" else "selects"))
+        if impl != m:
+            ctx.phi_fail("filter_cond_selects_whole_branch", case, key="onpolicy:filter_cond")
+
+
 def run(ctx):
+    check_filter_cond(ctx)
     for i in range(ctx.budget(10, 60)):
         _config(ctx, i)
         ctx.gc()
